@@ -2,8 +2,8 @@ package c10
 
 import (
 	"context"
-	"time"
 	"errors"
+	"time"
 
 	"github.com/cosi-project/runtime/pkg/resource"
 	"github.com/cosi-project/runtime/pkg/state"
@@ -17,12 +17,12 @@ var errInjected = errors.New("injected backing store failure")
 // fstore is a BackingStore whose every operation may fail (fault positions are
 // nondeterministic choices) and which keeps the durable contents.
 type fstore struct {
-	durable  []resource.Resource // acknowledged contents, in insertion order
-	faults   int                 // remaining fault budget
-	calls    int
-	lastFail bool
-	atPut    func() // called at the moment of a durable write
-	loadFailAt int   // Load fails after delivering this many items (-1 = never)
+	durable    []resource.Resource // acknowledged contents, in insertion order
+	faults     int                 // remaining fault budget
+	calls      int
+	lastFail   bool
+	atPut      func() // called at the moment of a durable write
+	loadFailAt int    // Load fails after delivering this many items (-1 = never)
 }
 
 func (s *fstore) find(id resource.ID) int {
